@@ -419,12 +419,12 @@ def run(ctx):
 CLAIM = {
     'technique': 'sibling cross-check by interval interpretation of the dispatchers per hash type over three build '
                  'configurations, constant tables vs recomputed FIPS 180-4 values, linear-fact proof of the '
-                 'buffered-length invariant, narrowing-cast inventory at the backend boundary',
+                 'buffered-length invariant, narrowing-cast inventory at the backend boundary, tagged-buffer abstract interpretation of the bundled finalisation (exhaustive in the buffered length) and update buffering (length sampled at class boundaries), length-field/counter width by taint, static inventory of the backends',
     'text': 'static analysis: decides C18-a..d (structure) - both backends (and both OpenSSL API generations) map each '
             'hash type to the same algorithm and digest buffer, SHA-512/128 is SHA-512 cut to 16 bytes; the bundled '
             'SHA-2 tables equal FIPS 180-4 and SHA-1 uses the standard words; the bundled block buffering keeps its '
             'length below the block size on every exit; narrowing of the update length is reported. Digest arithmetic '
-            'is not decided.',
+            'is not decided. C18-e..h: padding layout for every buffered length; update buffering; 64-bit length counter and field; no mutable static in a backend.',
     'note': 'trusted: clang 14 front end; OpenSSL; FIPS constants recomputed with integer roots of the first 80 primes',
 }
 
